@@ -71,6 +71,8 @@ def do_step(step, root):
         root = Path(".")
     binf = root / f"{stem}.ap{U}.bin"
     cbin = root / f"{stem}.ap{U}.cbin"
+    if step.get("_str"):
+        binf, cbin = str(binf), str(cbin)       # callers hand plain strings as often as Path objects
     op = step["op"]
     ckw = {}
     if step.get("via") == "kwargs":
@@ -158,7 +160,7 @@ def _gen_world(r, tier):
             "stem": r.choice([None] * 6 + ["my rec_g0_t0.imec0", "rec.v2_g0_t0.imec0", "REC-01_g0_t0.imec0"]),
             "relative_paths": r.random() < 0.15,
             # annex / object-store layout: the data file is a symbolic link into a store, its .meta a regular file beside the link
-            "symlink_store": r.random() < 0.12}
+            "symlink_store": r.random() < 0.12, "str_paths": r.random() < 0.3}
 
 
 def _gen_knobs(r):
@@ -470,6 +472,7 @@ def _exec_step(W, st, model, log, stats, bump, seed, progress=False):
     st["_u"] = W.U
     st["_stem"] = W.stem
     st["_rel"] = bool(W.w.get("relative_paths"))
+    st["_str"] = bool(W.w.get("str_paths"))
     if fault and fault.get("auto"):
         dr = session.dry_run(W.root, do_step, st, W.cfg, pool_seed, read_events=True)
         fr = rng_of(fault["rseed"])
